@@ -69,13 +69,14 @@ func (t *otTap) SendLabel(v ot.Label, d *ot.LabelData) error {
 }
 
 type iknpPair struct {
-	s      *ot.IKNPSender
-	r      *ot.IKNPReceiver
-	sIO    *otTap
-	rIO    *otTap
-	delta  ot.Label
-	sc, rc *p2p.Conn
-	dead   bool // a batch stalled: the connections are held by blocked goroutines
+	s       *ot.IKNPSender
+	r       *ot.IKNPReceiver
+	sIO     *otTap
+	rIO     *otTap
+	delta   ot.Label
+	sc, rc  *p2p.Conn
+	recheck []func() string // re-validation of the outputs of earlier batches
+	dead    bool            // a batch stalled: the connections are held by blocked goroutines
 }
 
 // newIKNPPair initialises one sender/receiver pair over an in-memory connection with CO base OT.
@@ -195,6 +196,20 @@ func runIKNPBatch(res *Result, p *iknpPair, b otBatch, rng *rand.Rand, pat strin
 		}
 		if bad > 0 {
 			res.viol("correlation:labels", "%s: label form n=%d choices=%s: %d indices violate received = sent xor choice*Delta (first %d)", what, n, pat, bad, first)
+		} else {
+			// the outputs of a batch are the caller's: they must still hold after later batches on the same instance
+			p.recheck = append(p.recheck, func() string {
+				for j := 0; j < n; j++ {
+					want := sent[j]
+					if flags[j] {
+						want.Xor(p.delta)
+					}
+					if !recv[j].Equal(want) {
+						return fmt.Sprintf("%s: label form n=%d: index %d no longer satisfies received = sent xor choice*Delta", what, n, j)
+					}
+				}
+				return ""
+			})
 		}
 	case "bits":
 		words := (n + 63) / 64
@@ -417,6 +432,12 @@ func c06Main(args []string) error {
 		for bi, b := range oc.Batches {
 			pat := pats[(idx+bi)%len(pats)]
 			if !runIKNPBatch(res, p, b, rng, pat, fmt.Sprintf("batch %d of %v", bi, batchDesc(oc.Batches))) {
+				break
+			}
+		}
+		for _, f := range p.recheck {
+			if msg := f(); msg != "" {
+				res.viol("correlation:labels:after-later-batch", "the outputs of an earlier batch changed when a later batch ran on the same sender/receiver: %s", msg)
 				break
 			}
 		}
